@@ -150,6 +150,10 @@ pub struct Sim {
     pub pending_kad_gets: Vec<(usize, libp2p::kad::RecordKey, oneshot::Sender<Result<libp2p::kad::Record, GetRecordError>>)>,
     /// release handles of tasks that must never run (crashed node); dropped only after the runtime
     pub graveyard: Vec<(GateId, oneshot::Sender<()>)>,
+    /// keys whose stored value is sampled after every local command that concerns them: (node, key)
+    pub watch: Vec<(usize, Vec<u8>)>,
+    /// (step, node, key, value as returned by the store right after the command)
+    pub watch_log: Vec<(u64, usize, Vec<u8>, Option<Vec<u8>>)>,
 }
 
 pub fn quic_addr(port: u16) -> Multiaddr {
@@ -174,6 +178,8 @@ impl Sim {
             auto_events: true,
             pending_kad_gets: vec![],
             graveyard: vec![],
+            watch: vec![],
+            watch_log: vec![],
         }
     }
 
@@ -360,8 +366,16 @@ impl Sim {
                 }
                 let cmd = self.nodes[i].local_q.remove(j).expect("local cmd");
                 self.schedule.push(format!("n{i}:local:{}", cmd_name(&format!("{cmd:?}"))));
+                let watched = local_cmd_key(&cmd).filter(|k| matches!(cmd, LocalSwarmCmd::PutLocalRecord { .. } | LocalSwarmCmd::AddLocalRecordAsStored { .. } | LocalSwarmCmd::RemoveFailedLocalRecord { .. }) && self.watch.contains(&(i, k.clone())));
                 let _g = self.rt.enter();
                 let _ = self.nodes[i].drv.verif_handle_local_cmd(cmd);
+                if let Some(k) = watched {
+                    use libp2p::kad::store::RecordStore;
+                    let v = self.nodes[i].drv.verif_store_mut().and_then(|st| st.get(&libp2p::kad::RecordKey::from(k.clone())).map(|r| r.value.clone()));
+                    if self.watch_log.last().map(|(_, n, lk, lv)| !(*n == i && *lk == k && *lv == v)).unwrap_or(true) {
+                        self.watch_log.push((self.steps, i, k, v));
+                    }
+                }
             }
             S::Net(i) => {
                 let qlen = self.nodes[i].net_q.len();
